@@ -2,6 +2,9 @@
 #define _GNU_SOURCE
 #include <pthread.h>
 #include <stdbool.h>
+#include <sys/mman.h>
+#include <fcntl.h>
+#include <unistd.h>
 #include <stdio.h>
 #include <stdlib.h>
 #include <string.h>
@@ -109,6 +112,29 @@ int ops_codec(char **args, int na)
 		else if (!strcmp(args[1], "sse42")) { if (!my_crc32c_sse42_supported()) { free(base); puts("unsupported"); return 0; } c = my_crc32c_sse42(p, n); }
 		else { free(base); return -1; }
 		printf("crc %lu\n", (unsigned long)c); free(base); return 0;
+	}
+	if (!strcmp(op, "crc.big") && na == 3) {
+		/* crc.big <len> <align>: a buffer of <len> bytes (4 GiB and more) made by mapping one 4 MiB file over and over into a
+		 * single reservation (costs 4 MiB of page cache); the three entry points must agree.
+		 * reply: big api=<crc> slicing=<crc> sse42=<crc|unsupported> */
+		size_t len = strtoull(args[1], NULL, 10); int al = atoi(args[2]);
+		size_t piece = 4u << 20, total = ((len + al + piece - 1) / piece + 1) * piece;
+		char path[400]; snprintf(path, sizeof path, "%s/crcbig.bin", vf_tmpdir);
+		int fd = open(path, O_RDWR | O_CREAT | O_TRUNC, 0600); if (fd < 0) return -1;
+		uint8_t *blk = malloc(piece); uint64_t x = 88172645463325252ull;
+		for (size_t i = 0; i < piece; i++) { x ^= x << 13; x ^= x >> 7; x ^= x << 17; blk[i] = (uint8_t)x; }
+		if (write(fd, blk, piece) != (ssize_t)piece) { close(fd); free(blk); return -1; }
+		free(blk);
+		uint8_t *base0 = mmap(NULL, total, PROT_NONE, MAP_PRIVATE | MAP_ANONYMOUS | MAP_NORESERVE, -1, 0);
+		if (base0 == MAP_FAILED) { close(fd); unlink(path); puts("big unavailable"); return 0; }
+		for (size_t off = 0; off < total; off += piece)
+			if (mmap(base0 + off, piece, PROT_READ, MAP_PRIVATE | MAP_FIXED, fd, 0) == MAP_FAILED) { munmap(base0, total); close(fd); unlink(path); puts("big unavailable"); return 0; }
+		const uint8_t *p = base0 + al;
+		uint32_t a = mtbl_crc32c(p, len), sl = my_crc32c_slicing(p, len);
+		if (my_crc32c_sse42_supported()) printf("big api=%lu slicing=%lu sse42=%lu\n", (unsigned long)a, (unsigned long)sl, (unsigned long)my_crc32c_sse42(p, len));
+		else printf("big api=%lu slicing=%lu sse42=unsupported\n", (unsigned long)a, (unsigned long)sl);
+		munmap(base0, total); close(fd); unlink(path);
+		return 0;
 	}
 	if (!strcmp(op, "crc.cpu")) { puts(my_crc32c_sse42_supported() ? "sse42 1" : "sse42 0"); return 0; }
 	return -1;
